@@ -65,8 +65,8 @@ SRR = lr1.Grammar('srr', ['S', 'C', 'A', 'B'], ['x', 't'], 'S', [('S', ['C']), (
 RR = lr1.Grammar('rr1', ['op', 'sop'], ['!', '*', '+'], 'op', [('sop', ['!']), ('op', ['!']), ('op', ['*']), ('op', ['+']), ('op', ['sop'])], note='README reduce/reduce example')
 
 def kernels(wd, tier='quick'):
-    P = {g.name: g for g in families.g_prec() + families.g_dir()}
-    names = ['p_ll', 'p_rr', 'lalr', 'p_else', 'p_perm'] if tier == 'quick' else ['p_ll', 'p_rr', 'p_lr', 'p_eq', 'p_eqr', 'p_none', 'p_def', 'p_neg', 'p_expl', 'p_else', 'p_perm', 'interl', 'lalr', 'etf', 'd2', 'nullrun']
+    P = {g.name: g for g in families.g_prec() + families.g_dir() + families.g_err()}
+    names = ['p_ll', 'p_rr', 'lalr', 'p_else', 'p_perm', 'ersr'] if tier == 'quick' else ['p_ll', 'p_rr', 'p_lr', 'p_eq', 'p_eqr', 'p_none', 'p_def', 'p_neg', 'p_expl', 'p_else', 'p_perm', 'interl', 'ersr', 'er1', 'er2', 'lalr', 'etf', 'd2', 'nullrun']
     gs = [P[n] for n in names] + [RR, SRR]
     ks = []
     for g in gs:
